@@ -163,6 +163,16 @@ GSeed == [
     GroupD("g1", TRUE, <<Attr("quat", T("double", "", ArEx(4), DVec(4), << >>)), Attr("euler", GoodT.rng03)>>),
     GroupD("g2", FALSE, <<Attr("pos", GoodT.vec3), Use("g1"), Attr("sz", GoodT.sym),
                           Con("together", <<<<"pos">>, <<"sz">>>>)>>),
+    \* every attribute type also INSIDE groups: gA is reached through one `use` (plugin) and through two (zone -> gB -> gA);
+    \* enum onoff has a flags attribute ONLY here (no element declares one directly)
+    GroupD("gA", FALSE, <<Attr("ga_en", T("enum", "onoff", ArNone, DId("on"), << >>)),
+                          Attr("ga_fl", T("flags", "onoff", ArNone, DNone, << >>)),
+                          Attr("ga_ref", T("ref", "body", ArNone, DNone, << >>)), Attr("ga_id", T("id", "plug", ArNone, DNone, << >>)),
+                          Attr("ga_v", GoodT.vec3), Attr("ga_u", GoodT.unb), Attr("ga_r", GoodT.rng13), Attr("ga_y", GoodT.sym),
+                          Attr("ga_s", GoodT.str), Attr("ga_b", GoodT.bool), Attr("ga_c", GoodT.chars), Attr("ga_cr", GoodT.charsr),
+                          Attr("ga_f", GoodT.file), Attr("ga_mm", GoodT.minmax), Attr("ga_p", GoodT.pos), Attr("ga_nd", GoodT.nodef),
+                          Con("exclusive", <<<<"ga_v">>, <<"ga_u", "ga_nd">>>>)>>),
+    GroupD("gB", FALSE, <<Attr("gb_i", GoodT.int), Use("gA")>>),
     ElemD("mujoco", "", << >>, <<Attr("model", T("string", "", ArNone, DStr("m"), << >>)),
                                  Child("body", "!"), Child("default", "?"), Child("zone", "*")>>),
     ElemD("body", "mjsBody", << >>, <<Attr("name", T("id", "body", ArNone, DNone, << >>)),
@@ -182,8 +192,8 @@ GSeed == [
                                   Child("default", "R"), Child("geom", "?"), Child("default_x", "?"), Child("zone", "?")>>),
     ElemD("default_x", "", <<FId("xml", "x")>>, <<Attr("name", T("string", "", ArNone, DNone, << >>)), Attr("k", GoodT.nodef)>>),
     ElemD("zone", "mjsZ", <<FStr("xml", "area")>>, <<Attr("name", T("id", "zone", ArNone, DNone, << >>)), Attr("r", GoodT.rng13),
-                                                      Attr("w", GoodT.nodef), Child("plugin", "*"), Child("zone", "R")>>),
-    ElemD("plugin", "", << >>, <<Attr("plugin", GoodT.strreq), Attr("inst", T("ref", "zone", ArNone, DNone, << >>))>>) >>
+                                                      Attr("w", GoodT.nodef), Use("gB"), Child("plugin", "*"), Child("zone", "R")>>),
+    ElemD("plugin", "", << >>, <<Attr("plugin", GoodT.strreq), Attr("inst", T("ref", "zone", ArNone, DNone, << >>)), Use("gA")>>) >>
 ]
 
 \* ------------------------------------------------------------------------------------------------
@@ -247,6 +257,22 @@ ProjectionSound ==
   \A t \in gen.xsd.types : t[2] =>
      /\ \A x \in DOMAIN t[4] : t[4][x][1] \notin {"name", "class"}
      /\ SeqRange(t[4]) \subseteq SeqRange(SeqMap(Exp(sch, EIdx(sch, t[1])), XAttr))
+\* closure: everything the XSD refers to is declared in it -- every keyword / keyword-list type an attribute uses
+\* has its simpleType (kwlist_<enum> exists exactly for the enums some EXPANDED attribute uses as flags<>), and
+\* every child element's type is an emitted complexType
+GenClosed ==
+  /\ \A t \in gen.xsd.types :
+       /\ \A x \in DOMAIN t[4] : LET ty == t[4][x][2] IN
+             /\ (ty[1] = "kw" /\ ty[2] # "bool") => \E k \in DOMAIN gen.xsd.kw : gen.xsd.kw[k][1] = ty[2]
+             /\ ty[1] = "kwlist" => \E k \in DOMAIN gen.xsd.kw : gen.xsd.kw[k][1] = ty[2] /\ gen.xsd.kw[k][3]
+       /\ \A x \in DOMAIN t[3] : \E u \in gen.xsd.types : u[1] = t[3][x][2] /\ u[2] = t[3][x][3]
+  /\ \A x \in DOMAIN gen.table : gen.table[x][1] = "row" =>
+        \A c \in gen.table[x][5] : ConNames([bundles |-> c[2]]) \subseteq SeqRange(gen.table[x][4])
+\* a flags<> attribute that reaches an element only through `use` (needed by the closure check to be non-vacuous)
+FlagsOnlyViaGroup(s) ==
+  \E i \in ElemIdx(s) : \E a \in SeqRange(Exp(s, i)) :
+     a.type = "flags" /\ \A j \in ElemIdx(s) : \A k \in MemIdx(s, j, "attr") :
+                            ~(s[j].mem[k].type = "flags" /\ s[j].mem[k].target = a.target)
 \* the table's markers are balanced and the first entry is the mujoco row
 TableBalanced ==
   LET RECURSIVE Depth(_) Depth(x) == IF x = 0 THEN 0 ELSE Depth(x - 1) + (IF gen.table[x][1] = "<" THEN 1
@@ -264,7 +290,7 @@ GSeedFull  == {"full"}
 GNames     == {"p", "name"}
 GDecl      == {"q", "plugin", "default_y"}
 GFewT      == {"int", "vec3", "str", "enum", "nodef", "sym", "unb", "minmax", "flags", "charsr", "bool", "pos", "rng13", "file"}
-GQuickT    == {"vec3", "enum", "nodef", "sym", "flags", "minmax"}
+GQuickT    == {"vec3", "enum", "nodef", "flags"}
 GNameP     == {"p"}
 GTinyT     == {"vec3", "nodef"}
 GDeclQ     == {"q", "plugin"}
